@@ -10,6 +10,7 @@ import (
 	"github.com/fogfish/golem/pure/eq"
 	"github.com/fogfish/golem/pure/monoid"
 	"github.com/fogfish/golem/pure/ord"
+	"github.com/fogfish/golem/pure/semigroup"
 )
 
 // ContraMap over interface and pointer types: the values compared include the nil interface, typed nil pointers
@@ -141,3 +142,32 @@ func checkMonoidWithoutSemigroup() {
 }
 
 func monoidFromNil(e int) monoid.Monoid[int] { return monoid.From[int](e, nil) }
+
+// the Empty of a monoid over slices is the very slice that was given: same storage, length and capacity (a fold that
+// appends in place into a caller's buffer relies on it)
+func checkMonoidSliceIdentity() {
+	for _, k := range []int{0, 1, 8, 1000} {
+		buf := make([]int, 0, k)
+		c := caseT{Kind: "monoid/slice-identity", A: k}
+		rec.Eval(fmt.Sprint("monoid-slice", k), true)
+		app := func(a, b []int) []int { return append(a, b...) }
+		for name, m := range map[string]monoid.Monoid[[]int]{"FromOp": monoid.FromOp(buf, app), "From": monoid.From[[]int](buf, semigroup.From[[]int](app))} {
+			e := m.Empty()
+			if len(e) != 0 || cap(e) != k || (e == nil) != (buf == nil) {
+				bad("monoid."+name, fmt.Sprintf("Empty() has len %d cap %d, the given element has len 0 cap %d", len(e), cap(e), k), c)
+				continue
+			}
+			if k >= 8 {
+				acc := m.Combine(m.Combine(m.Empty(), []int{1, 2}), []int{3})
+				if &acc[0] != &buf[:1][0] {
+					bad("monoid."+name, "a fold appending in place from Empty() left the buffer that was given as the empty element", c)
+				}
+			}
+		}
+	}
+	type names []string
+	given := make(names, 2, 5)
+	if e := monoid.FromOp(given, func(a, b names) names { return append(a, b...) }).Empty(); len(e) != 2 || cap(e) != 5 {
+		bad("monoid.FromOp", fmt.Sprintf("Empty() of a named slice type has len %d cap %d, given len 2 cap 5", len(e), cap(e)), caseT{Kind: "monoid/slice-identity", A: "named"})
+	}
+}
